@@ -1,6 +1,790 @@
-//! C17 — not implemented yet.
-use crate::report::{Cfg, Report};
+//! C17 — statistical transforms and combinatorics satisfy their defining identities (DESIGN §3 C17).
+//!
+//! Events: return value or panic of `logistic`, `logit`, `softmax`, `boxcox`, `boxcox_shifted`,
+//! `binom_coeff`, `binom_coeff_alt`.
+//! Oracles: order / range / symmetry relations on consecutive f32-representable arguments,
+//! condition-scaled round-trip bounds, a max-shifted softmax reference with a double-double
+//! normaliser on inputs that live on a 2^-20 grid (so that every shift is exact), the
+//! `expm1(λ ln t)/λ` form of Box–Cox, and a u128 Pascal table for the binomial coefficient.
+use crate::gen::Rng;
+use crate::oracle::{dd, exact};
+use crate::report::{guard, jf, jnum, par_cases, same_bits, Cfg, Hasher, Report};
+use compute::functions::{binom_coeff, binom_coeff_alt, boxcox, boxcox_shifted, logistic, logit, softmax};
+use serde_json::{json, Value};
 
-pub fn run(_cfg: &Cfg, rep: &mut Report) {
-    rep.inconclusive("monitor for C17 not implemented".to_string());
+const EPS: f64 = f64::EPSILON;
+const TINY: f64 = f64::MIN_POSITIVE;
+
+/// Register `checked` evaluations of one assertion of which `failed` failed (bulk form of
+/// `rep.check` for the f32 sweep, where a map lookup per point would dominate the run time).
+fn bulk(rep: &mut Report, assertion: &str, regime: &str, checked: u64, failed: u64, first: Option<Value>) {
+    if checked == 0 {
+        return;
+    }
+    if failed == 0 {
+        rep.assert_stat(assertion).checked += checked;
+        return;
+    }
+    rep.check(assertion, regime, false, || first.unwrap_or(json!(null)));
+    let st = rep.assert_stat(assertion);
+    st.checked += checked - 1;
+    st.failed += failed - 1;
+    if let Some(v) = rep.violations.get_mut(&format!("{}|{}", assertion, regime)) {
+        v.count += failed - 1;
+    }
+}
+
+// ---------------------------------------------------------------------------------------------
+// logistic / logit
+
+fn f32_at(k: u32) -> f64 {
+    f32::from_bits(k) as f64
+}
+
+/// Sweep the consecutive non-negative f32 values with bit patterns lo..=hi together with their
+/// negatives. `lo > 0`: the pair (lo-1, lo) is included so that chunks tile the whole range.
+fn sweep(rep: &mut Report, lo: u32, hi: u32, regime: &str) {
+    let start = if lo == 0 { 0 } else { lo - 1 };
+    let mut prev_p = logistic(f32_at(start));
+    let mut prev_n = logistic(-f32_at(start));
+    let (mut n_mono, mut f_mono, mut first_mono) = (0u64, 0u64, None);
+    let (mut n_range, mut f_range, mut first_range) = (0u64, 0u64, None);
+    let (mut n_sym, mut f_sym, mut first_sym) = (0u64, 0u64, None);
+    let mut worst_sym = 0.0f64;
+    let mut k = start;
+    loop {
+        let x = f32_at(k);
+        let sp = logistic(x);
+        let sn = logistic(-x);
+        // range (NaN fails)
+        n_range += 2;
+        if !((0.0..=1.0).contains(&sp) && (0.0..=1.0).contains(&sn)) {
+            f_range += 1;
+            if first_range.is_none() {
+                first_range = Some(json!({"x": x, "logistic(x)": jnum(sp), "logistic(-x)": jnum(sn), "expected": "both in [0,1]"}));
+            }
+        }
+        // symmetry
+        n_sym += 1;
+        let d = (sn - (1.0 - sp)).abs();
+        if d > worst_sym || d.is_nan() {
+            worst_sym = d;
+        }
+        if !(d <= 8.0 * EPS) {
+            f_sym += 1;
+            if first_sym.is_none() {
+                first_sym = Some(json!({"x": x, "logistic(-x)": jnum(sn), "1-logistic(x)": jnum(1.0 - sp), "abs_diff": jnum(d), "bound": 8.0 * EPS}));
+            }
+        }
+        if k > start {
+            // monotone on both half-lines: x_{k-1} < x_k  and  -x_k < -x_{k-1}
+            n_mono += 2;
+            if !(sp >= prev_p) || !(sn <= prev_n) {
+                f_mono += 1;
+                if first_mono.is_none() {
+                    first_mono = Some(json!({"x_prev": f32_at(k - 1), "x": x, "logistic(x_prev)": jnum(prev_p), "logistic(x)": jnum(sp),
+                        "logistic(-x_prev)": jnum(prev_n), "logistic(-x)": jnum(sn), "expected": "non-decreasing"}));
+                }
+            }
+        }
+        prev_p = sp;
+        prev_n = sn;
+        if k == hi {
+            break;
+        }
+        k += 1;
+    }
+    let pts = (hi - start + 1) as u64;
+    rep.evaluations += 2 * pts;
+    rep.seen(regime, 2 * pts);
+    bulk(rep, "C17.logistic.monotone", regime, n_mono, f_mono, first_mono);
+    bulk(rep, "C17.logistic.range", regime, n_range, f_range, first_range);
+    bulk(rep, "C17.logistic.symmetry", regime, n_sym, f_sym, first_sym);
+    rep.note_max("worst_ratio.logistic.symmetry(abs_diff/8eps)", worst_sym / (8.0 * EPS));
+}
+
+fn logit_of_logistic(rep: &mut Report, x: f64) {
+    let regime = "logit∘logistic:|x|<=30";
+    rep.case(regime);
+    let s = logistic(x);
+    match guard(|| logit(s)) {
+        Err(msg) => {
+            rep.check("C17.logit.accepts", regime, false, || json!({"x": x, "p=logistic(x)": jnum(s), "panic": msg}));
+        }
+        Ok(back) => {
+            // error sources: relative error of s amplified by 1/(1-s), plus the rounding of the logarithm (∝ |x|)
+            let bound = 16.0 * EPS * (1.0 / (1.0 - s) + x.abs());
+            let err = (back - x).abs();
+            rep.note_max("worst_ratio.logit∘logistic", err / bound);
+            rep.check("C17.logit∘logistic.identity", regime, err <= bound, || json!({"x": x, "logistic(x)": s, "logit(logistic(x))": jnum(back), "abs_err": jnum(err), "bound": bound}));
+        }
+    }
+}
+
+fn logistic_of_logit(rep: &mut Report, p: f64, regime: &str) {
+    rep.case(regime);
+    match guard(|| logit(p)) {
+        Err(msg) => {
+            rep.check("C17.logit.accepts", regime, false, || json!({"p": p, "panic": msg, "expected": "a value: p is in [0,1]"}));
+        }
+        Ok(l) => {
+            rep.check("C17.logit.accepts", regime, true, || json!(null));
+            let back = logistic(l);
+            let (ok, ratio, bound) = if p == 0.0 || p == 1.0 {
+                // end points: logit is ∓∞ and the round trip is exact
+                let ok = l.is_infinite() && (l > 0.0) == (p == 1.0) && back == p;
+                (ok, if ok { 0.0 } else { f64::INFINITY }, 0.0)
+            } else {
+                // relative bound 10ε(1+|logit p|) (a-priori worst case of this composition is (2.5+|l|/2)ε) plus the underflow threshold (results below the
+                // smallest normal number carry an absolute, not a relative, rounding error)
+                let bound = 10.0 * EPS * (1.0 + l.abs()) * p + 4.0 * TINY;
+                let err = (back - p).abs();
+                (err <= bound, err / bound, bound)
+            };
+            rep.note_max("worst_ratio.logistic∘logit", ratio);
+            rep.check("C17.logistic∘logit.identity", regime, ok, || json!({"p": p, "logit(p)": jnum(l), "logistic(logit(p))": jnum(back), "bound_abs": bound}));
+        }
+    }
+}
+
+fn logit_rejects(rep: &mut Report, p: f64, regime: &str) {
+    rep.case(regime);
+    let r = guard(|| logit(p));
+    rep.check("C17.logit.rejects", regime, r.is_err(), || json!({"p": jnum(p), "observed": jnum(*r.as_ref().unwrap()), "expected": "panic: p outside [0,1]"}));
+}
+
+fn run_logistic(cfg: &Cfg, rep: &mut Report) {
+    let top = 745.0f32.to_bits(); // last non-negative f32 bit pattern in the sweep
+    let regime = "logistic:f32-sweep";
+    if cfg.thorough() && !cfg.lite {
+        // every f32 in [-745, 745]
+        let chunks = 8192usize;
+        let per = (top as u64 + 1).div_ceil(chunks as u64);
+        par_cases(cfg, rep, 1, chunks, |i, _rng, rep| {
+            let lo = i as u64 * per;
+            if lo > top as u64 {
+                return;
+            }
+            let hi = ((i as u64 + 1) * per - 1).min(top as u64);
+            sweep(rep, lo as u32, hi as u32, regime);
+        });
+        rep.note("logistic.sweep", json!("all f32 values in [-745, 745]"));
+    } else {
+        // stratified: 1000 strata in bit-pattern space (= logarithmic in x) + 1000 strata uniform in x,
+        // 500 consecutive f32 values (and their negatives) each
+        let strata = cfg.pick(1000, 1000, 2);
+        let run = 250u32;
+        par_cases(cfg, rep, 1, 2 * strata, |i, rng, rep| {
+            let k0 = if i < strata {
+                let w = (top as u64 + 1) / strata as u64;
+                (i as u64 * w + rng.u64() % w) as u32
+            } else {
+                let j = (i - strata) as f64;
+                let x = 745.0 * (j + rng.f64()) / strata as f64;
+                (x as f32).to_bits()
+            };
+            let lo = k0.min(top - run);
+            sweep(rep, lo, lo + run, regime);
+        });
+        rep.note("logistic.sweep", json!("stratified runs of 251 consecutive f32 values, half of the strata uniform in the bit pattern, half uniform in x"));
+    }
+    // range and symmetry beyond ±745 and at special values (sweep regime covers the interior)
+    let sp = "logistic:|x|>745,special";
+    let specials = [745.0, 745.5, 746.0, 800.0, 1e4, 1e300, f64::MAX, f64::INFINITY, 0.0, 5e-324, TINY, 709.0, 709.8, 710.0, 36.0, 37.0, 38.0];
+    for &x in &specials {
+        for &x in &[x, -x] {
+            rep.case(sp);
+            let s = logistic(x);
+            rep.check("C17.logistic.range", sp, (0.0..=1.0).contains(&s), || json!({"x": jnum(x), "logistic(x)": jnum(s)}));
+            let d = (logistic(-x) - (1.0 - s)).abs();
+            rep.check("C17.logistic.symmetry", sp, d <= 8.0 * EPS, || json!({"x": jnum(x), "logistic(-x)": jnum(logistic(-x)), "1-logistic(x)": jnum(1.0 - s)}));
+        }
+    }
+    rep.check("C17.logistic.range", sp, logistic(f64::NEG_INFINITY) == 0.0 && logistic(f64::INFINITY) == 1.0 && logistic(0.0) == 0.5, || json!({"at": "-inf, +inf, 0"}));
+
+    // round trips
+    let n = cfg.pick(200_000, 3_000_000, 50);
+    par_cases(cfg, rep, 2, n, |i, rng, rep| {
+        // logit(logistic x), |x| <= 30, uniform and log-uniform magnitudes
+        let x = match i % 3 {
+            0 => rng.range(-30.0, 30.0),
+            1 => rng.log_range(1e-12, 30.0) * if rng.bool() { 1.0 } else { -1.0 },
+            _ => (rng.range(-30.0, 30.0) as f32) as f64,
+        };
+        logit_of_logistic(rep, x);
+        rep.distinct(Hasher::new().s("ll").f(x).finish(), x != 0.0);
+        // logistic(logit p)
+        let (p, regime) = match i % 5 {
+            0 | 1 => (rng.open01(), "logistic∘logit:p-interior"),
+            2 => (rng.log_range(1e-300, 1e-3), "logistic∘logit:p-tiny"),
+            3 => (1.0 - rng.log_range(EPS / 2.0, 1e-3), "logistic∘logit:p-near-1"),
+            _ => (f64::from_bits(rng.u64() % (1u64 << 52)), "logistic∘logit:p-subnormal"),
+        };
+        logistic_of_logit(rep, p, regime);
+        rep.distinct(Hasher::new().s("lp").f(p).finish(), p > 0.0 && p < 1.0);
+        // rejection
+        let bad = match i % 4 {
+            0 => -rng.log_range(1e-300, 1e300),
+            1 => 1.0 + rng.log_range(EPS, 1e300),
+            2 => -f64::from_bits(1 + rng.u64() % 1000),
+            _ => 1.0 + EPS * (1 + rng.usize(0, 1000)) as f64,
+        };
+        logit_rejects(rep, bad, if bad < 0.0 { "logit:p<0" } else { "logit:p>1" });
+    });
+    for &p in &[0.0, -0.0, 1.0] {
+        logistic_of_logit(rep, p, "logistic∘logit:p-endpoint");
+    }
+    for &p in &[0.5, 0.25, 1.0 - EPS / 2.0, TINY, 5e-324] {
+        logistic_of_logit(rep, p, "logistic∘logit:p-interior");
+    }
+    for &p in &[-5e-324, -TINY, -1.0, f64::NEG_INFINITY, -f64::MAX] {
+        logit_rejects(rep, p, "logit:p<0");
+    }
+    for &p in &[1.0 + EPS, 2.0, f64::INFINITY, f64::MAX] {
+        logit_rejects(rep, p, "logit:p>1");
+    }
+    rep.sample(|| json!({"fn": "logistic", "x": 2.0, "value": logistic(2.0), "logit(value)": logit(logistic(2.0))}));
+    for r in [regime, "logit∘logistic:|x|<=30", "logistic∘logit:p-interior", "logistic∘logit:p-tiny", "logistic∘logit:p-near-1", "logistic∘logit:p-endpoint", "logit:p<0", "logit:p>1"] {
+        rep.require(r, 1);
+    }
+}
+
+// ---------------------------------------------------------------------------------------------
+// softmax
+
+const GRID: f64 = 1048576.0; // 2^20: entries are multiples of 2^-20, |x| <= 1e4, so x_i - x_j and x_i + c are exact
+
+fn on_grid(x: f64) -> f64 {
+    ((x * GRID).round() / GRID).clamp(-1e4, 1e4)
+}
+
+fn sm_classify(x: &[f64]) -> &'static str {
+    let mx = x.iter().cloned().fold(f64::NEG_INFINITY, f64::max);
+    let mn = x.iter().cloned().fold(f64::INFINITY, f64::min);
+    if mx >= 710.0 {
+        "max>=710"
+    } else if mx <= -746.0 {
+        "max<=-746"
+    } else if mn >= -700.0 && mx <= 700.0 {
+        "|x|<=700"
+    } else if (0.0..=700.0).contains(&mx) {
+        "0<=max<=700,min<-700"
+    } else if mn >= 706.0 && mx <= 709.5 && x.len() >= 100 {
+        "706<=x<=709.5,n>=100"
+    } else if mn >= -745.0 && mx <= -709.0 {
+        "-745<=x<=-709"
+    } else {
+        "other"
+    }
+}
+
+/// max-shifted reference; exponent arguments are exact on the grid, normaliser summed in double-double
+fn sm_reference(x: &[f64]) -> Vec<f64> {
+    let mx = x.iter().cloned().fold(f64::NEG_INFINITY, f64::max);
+    let e: Vec<f64> = x.iter().map(|&v| (v - mx).exp()).collect();
+    let z = dd::sum(&e);
+    e.iter().map(|&v| (dd::Dd::new(v) / z).f()).collect()
+}
+
+/// Per-call checks. Returns the output if it is usable for the shift comparison.
+fn sm_call(rep: &mut Report, x: &[f64], regime: &str) -> Option<Vec<f64>> {
+    let n = x.len();
+    rep.case(&format!("softmax:{}", regime));
+    let regime = &format!("softmax:{}", regime);
+    let head = || json!({"n": n, "x": jf(x), "max": x.iter().cloned().fold(f64::NEG_INFINITY, f64::max), "min": x.iter().cloned().fold(f64::INFINITY, f64::min)});
+    let with = |k: &str, v: Value| {
+        let mut h = head();
+        h[k] = v;
+        h
+    };
+    let out = match guard(|| softmax(x)) {
+        Err(msg) => {
+            rep.check("C17.softmax.no_panic", regime, false, || with("panic", json!(msg)));
+            return None;
+        }
+        Ok(o) => o,
+    };
+    if !rep.check("C17.softmax.length", regime, out.len() == n, || with("observed_len", json!(out.len()))) {
+        return None;
+    }
+    let finite = out.iter().all(|v| v.is_finite());
+    if !rep.check("C17.softmax.finite", regime, finite, || with("observed", jf(&out))) {
+        return None; // every other relation is meaningless on NaN
+    }
+    rep.check("C17.softmax.nonneg", regime, out.iter().all(|&v| v >= 0.0), || with("observed", jf(&out)));
+    let s = dd::sum(&out);
+    let dev = (s - 1.0).f().abs();
+    let sum_bound = 4.0 * n as f64 * EPS;
+    let benign = regime.ends_with("|x|<=700") || regime.ends_with("min<-700");
+    if benign {
+        rep.note_max("worst_ratio.softmax.sum(|Σ-1|/4nε)", dev / sum_bound);
+    }
+    let sum_ok = rep.check("C17.softmax.sums_to_1", regime, dev <= sum_bound, || with("observed", json!({"sum": s.f(), "|sum-1|": dev, "bound": sum_bound, "out": jf(&out)})));
+    // order: x_i < x_j ⇒ s_i <= s_j ; x_i = x_j ⇒ s_i = s_j
+    let mut idx: Vec<usize> = (0..n).collect();
+    idx.sort_by(|&a, &b| x[a].partial_cmp(&x[b]).unwrap());
+    let mut bad = None;
+    for w in idx.windows(2) {
+        let (a, b) = (w[0], w[1]);
+        let ok = if x[a] == x[b] { same_bits(out[a], out[b]) } else { out[a] <= out[b] };
+        if !ok {
+            bad = Some((a, b));
+            break;
+        }
+    }
+    rep.check("C17.softmax.order", regime, bad.is_none(), || {
+        let (a, b) = bad.unwrap();
+        with("observed", json!({"i": a, "j": b, "x_i": x[a], "x_j": x[b], "s_i": out[a], "s_j": out[b]}))
+    });
+    if !sum_ok {
+        return None;
+    }
+    // values against the reference: (n+32)ε relative (twice the worst case of recursive summation plus
+    // exp and division roundings) + underflow floor
+    let r = sm_reference(x);
+    let tol_rel = (n as f64 + 32.0) * EPS;
+    let mut worst = 0.0f64;
+    let mut at = 0;
+    for i in 0..n {
+        let q = (out[i] - r[i]).abs() / (tol_rel * r[i] + 4.0 * TINY);
+        if q > worst {
+            worst = q;
+            at = i;
+        }
+    }
+    if benign {
+        rep.note_max("worst_ratio.softmax.reference", worst);
+    }
+    rep.check("C17.softmax.reference", regime, worst <= 1.0, || with("observed", json!({"i": at, "x_i": x[at], "got": out[at], "reference": r[at], "err/bound": worst, "rel_bound": tol_rel})));
+    Some(out)
+}
+
+fn sm_case(rep: &mut Report, x: &[f64]) {
+    let base_regime = sm_classify(x);
+    let n = x.len();
+    let spread = x.iter().cloned().fold(f64::NEG_INFINITY, f64::max) - x.iter().cloned().fold(f64::INFINITY, f64::min);
+    rep.distinct(Hasher::new().s("sm").fs(x).finish(), n >= 2 && spread > 0.0);
+    let base = sm_call(rep, x, base_regime);
+    // shift invariance: constants ±1e3, ±1e4 and the one that moves the maximum to (about) zero
+    let mx = x.iter().cloned().fold(f64::NEG_INFINITY, f64::max);
+    let shifts = [1e3, -1e3, 1e4, -1e4, -mx.round()];
+    for (si, &c) in shifts.iter().enumerate() {
+        if c == 0.0 {
+            continue;
+        }
+        let y: Vec<f64> = x.iter().map(|&v| v + c).collect();
+        if y.iter().any(|v| v.abs() > 1e4) {
+            continue; // outside the quantifier
+        }
+        let yr = sm_classify(&y);
+        if yr == "other" {
+            rep.note_add("softmax.shifted_into_unlabelled_band(skipped)", 1.0);
+            continue;
+        }
+        let shifted = sm_call(rep, &y, yr);
+        rep.seen(&format!("cover:softmax:shift:{}", ["+1e3", "-1e3", "+1e4", "-1e4", "-max"][si]), 1);
+        if let (Some(a), Some(b)) = (&base, &shifted) {
+            // both are within (n+32)ε of the same exact value (the shift is exact on the grid)
+            let tol_rel = 2.0 * (n as f64 + 32.0) * EPS;
+            let mut worst = 0.0f64;
+            let mut at = 0;
+            for i in 0..n {
+                let q = (a[i] - b[i]).abs() / (tol_rel * a[i].max(b[i]) + 8.0 * TINY);
+                if q > worst {
+                    worst = q;
+                    at = i;
+                }
+            }
+            // label by the less benign of the two input classes
+            let benign = |r: &str| r == "|x|<=700" || r == "0<=max<=700,min<-700";
+            let regime = format!("softmax:{}", if benign(base_regime) && !benign(yr) { yr } else { base_regime });
+            rep.check("C17.softmax.shift_invariant", &regime, worst <= 1.0, || {
+                json!({"n": n, "x": jf(x), "shift": c, "i": at, "softmax(x)[i]": a[at], "softmax(x+c)[i]": b[at], "err/bound": worst, "shifted_regime": yr})
+            });
+            rep.seen("cover:softmax:shift:comparable", 1);
+        }
+    }
+}
+
+fn sm_len(rng: &mut Rng, i: usize) -> usize {
+    match i % 8 {
+        0 => 1,
+        1 => 2,
+        2 => rng.usize(3, 10),
+        3 => 1000,
+        4 | 5 => rng.usize(11, 200),
+        _ => rng.usize(201, 1000),
+    }
+}
+
+fn run_softmax(cfg: &Cfg, rep: &mut Report) {
+    let n = cfg.pick(8000, 160_000, 20);
+    par_cases(cfg, rep, 3, n, |i, rng, rep| {
+        let len = sm_len(rng, i);
+        let class = (i / 8) % 10;
+        let x: Vec<f64> = match class {
+            // |x| <= 700, several shapes
+            0 => (0..len).map(|_| on_grid(rng.range(-700.0, 700.0))).collect(),
+            1 => (0..len).map(|_| on_grid(rng.range(-700.0, -300.0))).collect(), // +1e3 stays in band
+            2 => (0..len).map(|_| on_grid(rng.range(300.0, 700.0))).collect(),   // -1e3 stays in band
+            3 => {
+                let c = rng.range(-690.0, 690.0);
+                let w = rng.log_range(1e-3, 10.0);
+                (0..len).map(|_| on_grid((c + w * rng.normal()).clamp(-700.0, 700.0))).collect()
+            }
+            // max in [0,700], the rest anywhere below
+            4 => {
+                let mut v: Vec<f64> = (0..len.max(2)).map(|_| on_grid(rng.range(-1e4, 0.0))).collect();
+                v[0] = on_grid(rng.range(0.0, 700.0));
+                v[1] = on_grid(rng.range(-1e4, -701.0));
+                rng.shuffle(&mut v);
+                v
+            }
+            // overflow of a single exponential
+            5 | 6 => {
+                let mut v: Vec<f64> = (0..len).map(|_| on_grid(rng.range(-1e4, 1e4))).collect();
+                let j = rng.usize(0, len - 1);
+                v[j] = on_grid(if class == 5 { rng.range(710.0, 1e4) } else { rng.log_range(710.0, 1e4) });
+                v
+            }
+            // all exponentials underflow to zero
+            7 => (0..len).map(|_| on_grid(if rng.bool() { rng.range(-1e4, -746.0) } else { -rng.log_range(746.0, 1e4) })).collect(),
+            // every exponential finite but their sum overflows
+            8 => (0..len.max(100)).map(|_| on_grid(rng.range(706.0, 709.5))).collect(),
+            // every exponential subnormal
+            _ => (0..len.max(2)).map(|_| on_grid(rng.range(-745.0, -709.0))).collect(),
+        };
+        sm_case(rep, &x);
+    });
+    // literal cases from DESIGN's probe and ties
+    sm_case(rep, &[1000.0, 1000.0]);
+    sm_case(rep, &[-1000.0, -1000.0]);
+    sm_case(rep, &[1.0, 2.0, 3.0, 4.0, 1.0, 2.0, 3.0]);
+    sm_case(rep, &[0.0]);
+    sm_case(rep, &[5.0, 5.0, 5.0, 5.0]);
+    rep.sample(|| json!({"fn": "softmax", "x": [1.0, 2.0, 3.0], "value": softmax(&[1.0, 2.0, 3.0])}));
+    for r in ["|x|<=700", "0<=max<=700,min<-700", "max>=710", "max<=-746", "706<=x<=709.5,n>=100", "-745<=x<=-709"] {
+        rep.require(&format!("softmax:{}", r), 1);
+    }
+    rep.require("cover:softmax:shift:comparable", 1);
+}
+
+// ---------------------------------------------------------------------------------------------
+// Box–Cox
+
+/// (t^λ − 1)/λ through expm1(λ ln t)/λ; the logarithm at λ = 0. Returns (value, |λ ln t|).
+fn bc_reference(t: f64, lambda: f64) -> (f64, f64) {
+    let l = t.ln();
+    if lambda == 0.0 {
+        return (l, 0.0);
+    }
+    let y = lambda * l;
+    ((y.exp_m1()) / lambda, y.abs())
+}
+
+fn bc_regime(lambda: f64, y: f64) -> &'static str {
+    if lambda == 0.0 {
+        "lambda=0"
+    } else if lambda.abs() < 1e-8 {
+        "0<|λ|<1e-8"
+    } else if y < 1.0 {
+        "|λ|>=1e-8,|λ·ln t|<1"
+    } else {
+        "|λ·ln t|>=1"
+    }
+}
+
+fn bc_value(rep: &mut Report, assertion: &str, fname: &str, args: Value, t: f64, lambda: f64, got: f64) {
+    let (r, y) = bc_reference(t, lambda);
+    let regime = format!("{}:{}", fname, bc_regime(lambda, y));
+    rep.seen(&regime, 1);
+    // stable-evaluation bound: the reference itself carries ~2u|y| (rounded λ·ln t), the function is well conditioned
+    let bound = 16.0 * EPS * (1.0 + y) * r.abs() + TINY;
+    let err = (got - r).abs();
+    let ratio = if err.is_nan() { f64::INFINITY } else { err / bound };
+    if y >= 1.0 || lambda == 0.0 {
+        rep.note_max(&format!("worst_ratio.{}.formula(regimes without cancellation)", fname), ratio);
+    }
+    // evidence: the same error measured against the cancellation bound of the literal formula (t^λ − 1)/λ
+    if lambda != 0.0 {
+        let naive = 4.0 * EPS * (t.powf(lambda) + 1.0) / lambda.abs() + 16.0 * EPS * (1.0 + y) * r.abs() + TINY;
+        rep.note_max(&format!("worst_ratio.{}.vs_cancellation_bound_of_literal_formula", fname), if err.is_nan() { f64::INFINITY } else { err / naive });
+    }
+    rep.check(assertion, &regime, ratio <= 1.0, || json!({"args": args, "t=x+shift": t, "lambda": lambda, "got": jnum(got), "expected": jnum(r), "rel_err": jnum(err / r.abs()), "rel_bound": 16.0 * EPS * (1.0 + y), "|λ·ln t|": y}));
+}
+
+fn gen_lambda(rng: &mut Rng, i: usize) -> f64 {
+    let sgn = if rng.bool() { 1.0 } else { -1.0 };
+    match i % 8 {
+        0 => 0.0,
+        1 => sgn * rng.log_range(1e-300, 1e-8) * 0.999,
+        2 => sgn * rng.log_range(1e-20, 1e-8) * 0.999,
+        3 => sgn * rng.log_range(1e-8, 5.0),
+        4 => *rng.choose(&[1.0, -1.0, 2.0, -2.0, 0.5, -0.5, 5.0, -5.0, 1.0 / 3.0]),
+        _ => rng.range(-5.0, 5.0),
+    }
+}
+
+fn run_boxcox(cfg: &Cfg, rep: &mut Report) {
+    let n = cfg.pick(200_000, 4_000_000, 50);
+    par_cases(cfg, rep, 4, n, |i, rng, rep| {
+        let lambda = gen_lambda(rng, i);
+        // ---- one-parameter form
+        let x = if i % 50 == 0 { 1.0 } else { rng.log_range(1e-6, 1e6) };
+        rep.case("boxcox:x>0");
+        rep.distinct(Hasher::new().s("bc").f(x).f(lambda).finish(), x != 1.0);
+        match guard(|| boxcox(x, lambda)) {
+            Err(msg) => {
+                rep.check("C17.boxcox.accepts", "boxcox:x>0", false, || json!({"x": x, "lambda": lambda, "panic": msg}));
+            }
+            Ok(v) => {
+                rep.check("C17.boxcox.accepts", "boxcox:x>0", true, || json!(null));
+                bc_value(rep, "C17.boxcox.formula", "boxcox", json!({"x": x, "lambda": lambda}), x, lambda, v);
+            }
+        }
+        if i % 10 == 0 {
+            let bad = match (i / 10) % 4 {
+                0 => 0.0,
+                1 => -0.0,
+                2 => -rng.log_range(1e-300, 1e6),
+                _ => f64::NEG_INFINITY,
+            };
+            rep.case("boxcox:x<=0");
+            let r = guard(|| boxcox(bad, lambda));
+            rep.check("C17.boxcox.rejects", "boxcox:x<=0", r.is_err(), || json!({"x": jnum(bad), "lambda": lambda, "observed": jnum(*r.as_ref().unwrap()), "expected": "panic"}));
+        }
+        // ---- two-parameter form: four classes by the two predicates (x > shift) and (x + shift > 0)
+        let t = rng.log_range(1e-6, 1e6); // intended x + shift for the in-domain classes
+        let class = (i / 8) % 6;
+        let (xs, shift): (f64, f64) = match class {
+            // in domain, x > shift: positive x with a smaller shift of either sign
+            0 => {
+                let x = rng.log_range(1e-6, 1e6);
+                let s = if rng.bool() { x * rng.range(0.0, 0.999) } else { -x * rng.range(0.0, 0.999) };
+                (x, s)
+            }
+            // in domain, x <= shift: x in (1e-6, 1e6) or negative, shift >= |x|
+            1 => {
+                let x = rng.log_range(1e-6, 1e6);
+                (x, x * (1.0 + rng.log_range(1e-3, 1e3)))
+            }
+            2 => {
+                let s = rng.log_range(1e-6, 1e6);
+                (-s * rng.range(0.0, 0.999), s)
+            }
+            // outside the domain although x > shift: shift < 0, x <= |shift|
+            3 => {
+                let x = rng.log_range(1e-6, 1e6);
+                (x, -x * (1.0 + rng.log_range(1e-3, 1e3)))
+            }
+            // outside the domain, x <= shift (both non-positive sum): x <= -|shift|
+            4 => {
+                let s = rng.log_range(1e-6, 1e6) * if rng.bool() { 1.0 } else { -1.0 };
+                (-s.abs() * (1.0 + rng.log_range(1e-3, 1e3)), s)
+            }
+            // in domain, shift = 0 or aimed at a given t
+            _ => {
+                if rng.bool() {
+                    (t, 0.0)
+                } else {
+                    let s = on_grid(rng.range(-100.0, 100.0));
+                    (on_grid(t.min(9e3)) + 1.0 + s.abs(), s)
+                }
+            }
+        };
+        let sum = xs + shift;
+        let in_domain = sum > 0.0;
+        let regime = match (xs > shift, in_domain) {
+            (true, true) => "boxcox_shifted:x>shift,x+shift>0",
+            (false, true) => "boxcox_shifted:x<=shift,x+shift>0",
+            (true, false) => "boxcox_shifted:x>shift,x+shift<=0",
+            (false, false) => "boxcox_shifted:x<=shift,x+shift<=0",
+        };
+        rep.case(regime);
+        if shift > 0.0 {
+            rep.seen("cover:boxcox_shifted:shift>0", 1);
+        } else if shift < 0.0 {
+            rep.seen("cover:boxcox_shifted:shift<0", 1);
+        }
+        rep.distinct(Hasher::new().s("bcs").f(xs).f(shift).f(lambda).finish(), shift != 0.0);
+        let r = guard(|| boxcox_shifted(xs, lambda, shift));
+        let args = json!({"x": xs, "lambda": lambda, "shift": shift, "x+shift": sum});
+        if in_domain {
+            match r {
+                Err(msg) => {
+                    rep.check("C17.boxcox_shifted.accepts", regime, false, || json!({"args": args, "panic": msg, "expected": "a value: x + shift > 0"}));
+                }
+                Ok(v) => {
+                    rep.check("C17.boxcox_shifted.accepts", regime, true, || json!(null));
+                    bc_value(rep, "C17.boxcox_shifted.formula", "boxcox_shifted", args, sum, lambda, v);
+                }
+            }
+        } else {
+            rep.check("C17.boxcox_shifted.rejects", regime, r.is_err(), || json!({"args": args, "observed": jnum(*r.as_ref().unwrap()), "expected": "panic: x + shift <= 0"}));
+        }
+    });
+    rep.sample(|| json!({"fn": "boxcox", "x": 2.0, "lambda": 0.5, "value": boxcox(2.0, 0.5), "reference": bc_reference(2.0, 0.5).0}));
+    for r in ["boxcox:x>0", "boxcox:x<=0", "boxcox:lambda=0", "boxcox:0<|λ|<1e-8", "boxcox:|λ|>=1e-8,|λ·ln t|<1", "boxcox:|λ·ln t|>=1",
+        "boxcox_shifted:x>shift,x+shift>0", "boxcox_shifted:x<=shift,x+shift>0", "boxcox_shifted:x>shift,x+shift<=0", "boxcox_shifted:x<=shift,x+shift<=0",
+        "cover:boxcox_shifted:shift>0", "cover:boxcox_shifted:shift<0"] {
+        rep.require(r, 1);
+    }
+}
+
+// ---------------------------------------------------------------------------------------------
+// binomial coefficients
+
+fn pascal_table(nmax: usize) -> Vec<Vec<u128>> {
+    let mut t: Vec<Vec<u128>> = Vec::with_capacity(nmax + 1);
+    for n in 0..=nmax {
+        let mut row = vec![1u128; n + 1];
+        for k in 1..n {
+            row[k] = t[n - 1][k - 1] + t[n - 1][k];
+        }
+        t.push(row);
+    }
+    t
+}
+
+/// One (n,k) whose exact value fits in 64 bits: value, symmetry, Pascal.
+fn binom_one(rep: &mut Report, n: u64, k: u64, expect: u128, regime: &str) {
+    rep.case(regime);
+    rep.distinct(Hasher::new().s("b").u(n).u(k).finish(), k >= 1 && k < n);
+    let got = guard(|| binom_coeff(n, k));
+    let ok = matches!(&got, Ok(v) if *v as u128 == expect);
+    rep.check("C17.binom_coeff.exact", regime, ok, || json!({"n": n, "k": k, "observed": match &got { Ok(v) => json!(v.to_string()), Err(e) => json!({"panic": e}) }, "expected": expect.to_string()}));
+    if !ok {
+        return;
+    }
+    let v = got.unwrap();
+    let sym = guard(|| binom_coeff(n, n - k));
+    rep.check("C17.binom_coeff.symmetry", regime, matches!(&sym, Ok(s) if *s == v), || json!({"n": n, "k": k, "C(n,k)": v.to_string(), "C(n,n-k)": format!("{:?}", sym)}));
+    // Pascal on the library's own outputs, when the right-hand side fits as well
+    if k < n {
+        if let Some(rhs) = exact::binom_u128(n + 1, k + 1) {
+            if rhs <= u64::MAX as u128 {
+                let a = guard(|| binom_coeff(n, k + 1));
+                let b = guard(|| binom_coeff(n + 1, k + 1));
+                let ok = match (&a, &b) {
+                    (Ok(a), Ok(b)) => v as u128 + *a as u128 == *b as u128,
+                    _ => false,
+                };
+                rep.check("C17.binom_coeff.pascal", regime, ok, || json!({"n": n, "k": k, "C(n,k)": v.to_string(), "C(n,k+1)": format!("{:?}", a), "C(n+1,k+1)": format!("{:?}", b)}));
+            }
+        }
+    }
+}
+
+fn run_binom(cfg: &Cfg, rep: &mut Report) {
+    // exhaustive n <= 67 against a u128 Pascal table (cross-checked with the multiplicative oracle)
+    let table = pascal_table(68);
+    let nmax = if cfg.lite { 30 } else { 67 };
+    let mut oracle_ok = true;
+    for n in 0..=nmax as u64 {
+        for k in 0..=n {
+            let e = table[n as usize][k as usize];
+            if exact::binom_u128(n, k) != Some(e) || e > u64::MAX as u128 {
+                oracle_ok = false;
+            }
+            binom_one(rep, n, k, e, "binom_coeff:n<=67");
+            // the gamma-based alternative: exact while the documentation promises it (n < 50, and the
+            // repository's own test asserts equality for n <= 45), then "slightly inaccurate": relative 1e-12
+            // (≈ 30× the a-priori error of three log-gamma terms of size <= 210 and one exp) or ±2
+            let regime = if n <= 45 { "binom_coeff_alt:n<=45" } else { "binom_coeff_alt:46<=n<=67" };
+            rep.case(regime);
+            let got = guard(|| binom_coeff_alt(n, k));
+            let (ok, ratio) = match &got {
+                Ok(v) => {
+                    let d = (*v as i128 - e as i128).unsigned_abs() as f64;
+                    rep.note_max(&format!("worst_abs_err.binom_coeff_alt.n={}", if n <= 45 { "0..45".to_string() } else { format!("{}..{}", (n - 1) / 5 * 5 + 1, (n - 1) / 5 * 5 + 5) }), d);
+                    if n <= 45 {
+                        (d == 0.0, d)
+                    } else {
+                        let b = (1e-12 * e as f64).max(2.0);
+                        (d <= b, d / b)
+                    }
+                }
+                Err(_) => (false, f64::INFINITY),
+            };
+            if n > 45 {
+                rep.note_max("worst_ratio.binom_coeff_alt.46<=n<=67", ratio);
+            }
+            if n > 45 {
+                if let Ok(v) = &got {
+                    rep.note_max("worst_rel_err.binom_coeff_alt.46<=n<=67", (*v as f64 - e as f64).abs() / e as f64);
+                }
+            }
+            rep.check("C17.binom_coeff_alt.accuracy", regime, ok, || json!({"n": n, "k": k, "observed": format!("{:?}", got), "expected": e.to_string()}));
+        }
+    }
+    if !oracle_ok {
+        rep.inconclusive("binomial oracles disagree (Pascal table vs multiplicative u128)".into());
+    }
+    rep.exhaustive = Some(!cfg.lite);
+    rep.sample(|| json!({"fn": "binom_coeff", "n": 67, "k": 33, "value": binom_coeff(67, 33).to_string(), "expected": table[67][33].to_string()}));
+    // larger n, k <= 32 (and the mirrored k), value below 2^64
+    let n = cfg.pick(100_000, 2_000_000, 30);
+    par_cases(cfg, rep, 5, n, |i, rng, rep| {
+        let k = match i % 4 {
+            0 => rng.usize(0, 3) as u64,
+            1 => rng.usize(4, 12) as u64,
+            _ => rng.usize(13, 32) as u64,
+        };
+        // largest n with C(n,k) < 2^64 by bisection on the u128 oracle
+        let fits = |n: u64| matches!(exact::binom_u128(n, k), Some(v) if v <= u64::MAX as u128);
+        let cap: u64 = if k == 0 {
+            u64::MAX - 1
+        } else if k == 1 {
+            u64::MAX - 1
+        } else {
+            let (mut lo, mut hi) = (68u64.max(k), 1u64 << 63);
+            if !fits(lo) {
+                return;
+            }
+            while hi - lo > 1 {
+                let mid = lo + (hi - lo) / 2;
+                if fits(mid) {
+                    lo = mid;
+                } else {
+                    hi = mid;
+                }
+            }
+            lo
+        };
+        if cap < 68 {
+            return;
+        }
+        let nn = match (i / 4) % 4 {
+            0 => rng.int(68, (cap as i64).clamp(68, 10_000)) as u64,
+            1 => cap - (rng.u64() % 3).min(cap - 68),
+            2 => (rng.log_range(68.0, cap as f64) as u64).clamp(68, cap),
+            _ => rng.int(68, (cap as i64).clamp(68, 200)) as u64,
+        };
+        let e = match exact::binom_u128(nn, k) {
+            Some(v) if v <= u64::MAX as u128 => v,
+            _ => return,
+        };
+        let regime = if nn <= 10_000 { "binom_coeff:68<=n<=1e4,k<=32" } else { "binom_coeff:n>1e4,k<=32" };
+        binom_one(rep, nn, k, e, regime);
+        if nn - k != k && nn < u64::MAX / 2 {
+            binom_one(rep, nn, nn - k, e, if nn <= 10_000 { "binom_coeff:68<=n<=1e4,k>=n-32" } else { "binom_coeff:n>1e4,k>=n-32" });
+        }
+    });
+    for r in ["binom_coeff:n<=67", "binom_coeff:68<=n<=1e4,k<=32", "binom_coeff:n>1e4,k<=32", "binom_coeff:68<=n<=1e4,k>=n-32", "binom_coeff_alt:n<=45"] {
+        rep.require(r, 1);
+    }
+}
+
+pub fn run(cfg: &Cfg, rep: &mut Report) {
+    rep.rule = "logistic: consecutive f32 values in ±745 (thorough: all of them; quick: stratified runs), round trips on random x in ±30 and p in [0,1] (interior, tiny, near 1, subnormal, end points); softmax: lengths 1..1000, entries on a 2^-20 grid in ±1e4, one input class per magnitude regime, each vector also shifted by ±1e3, ±1e4, -max; Box–Cox: x, x+shift log-uniform in (1e-6,1e6), λ in ±5 incl. 0 and |λ|<1e-8, four (x>shift, x+shift>0) classes; binomial: every (n,k) with n<=67, then random n>=68 with k<=32 or k>=n-32 up to the largest n whose value fits 64 bits. non-trivial = softmax vector with >= 2 distinct entries, 0<k<n, x != 1, shift != 0; distinct by argument bits".into();
+    rep.assume("NaN arguments are outside every quantifier of C17 and are not generated");
+    rep.assume("round-trip and softmax bounds carry an absolute underflow term of a few times the smallest normal number: results in the subnormal range have absolute, not relative, rounding error");
+    rep.assume("softmax order preservation is non-strict (x_i < x_j ⇒ s_i <= s_j, equal inputs ⇒ identical outputs): far-below-maximum entries legitimately underflow to equal values");
+    rep.assume("softmax inputs lie on a 2^-20 grid so that adding ±1e3, ±1e4 is exact; shifted vectors with an entry beyond ±1e4 are skipped");
+    rep.assume("binom_coeff is not judged when C(n,k) >= 2^64 (the property is silent there); binom_coeff_alt is judged only for n <= 67");
+    rep.assume("Box–Cox accuracy is judged against the conditioning of the function ((x^λ−1)/λ is well conditioned near λ = 0): 16ε(1+|λ ln t|) relative");
+    run_logistic(cfg, rep);
+    run_softmax(cfg, rep);
+    run_boxcox(cfg, rep);
+    run_binom(cfg, rep);
 }
